@@ -407,6 +407,7 @@ def restore_table(repo, ci):
         seen.add(id(f.node))
         R.funcs.append(f)
         fl = flow_of(f)
+        _CONST_SCOPE[id(fl)] = (repo, f)
         if "attribute_dict" not in f.params:
             raise AnalysisError(f"{f.qual}: parameter attribute_dict not found")
         dparam = "attribute_dict"
